@@ -7,6 +7,7 @@ import (
 	"strings"
 
 	"github.com/youchainhq/go-youchain/common"
+	"github.com/youchainhq/go-youchain/crypto"
 	"github.com/youchainhq/go-youchain/trie"
 	"github.com/youchainhq/go-youchain/youdb"
 	"verif/harness/vf"
@@ -33,6 +34,65 @@ func copyMap(m map[string][]byte) map[string][]byte {
 		out[k] = v
 	}
 	return out
+}
+
+
+// readCompletely opens root on db and reads it through every access path:
+// Get of every key, full iteration, and a Merkle proof for one key.  Returns
+// a description of what is wrong, or "".
+func readCompletely(db *trie.Database, root common.Hash, content map[string][]byte) string {
+	t, err := trie.New(root, db)
+	if err != nil {
+		return fmt.Sprintf("open: %v", err)
+	}
+	keys := make([]string, 0, len(content))
+	for k := range content {
+		keys = append(keys, k)
+	}
+	sort.Strings(keys)
+	for _, k := range keys {
+		v, err := t.TryGet([]byte(k))
+		if err != nil {
+			return fmt.Sprintf("get %x: %v", k, err)
+		}
+		if !bytes.Equal(v, content[k]) {
+			return fmt.Sprintf("get %x: got %x want %x", k, v, content[k])
+		}
+	}
+	t2, err := trie.New(root, db)
+	if err != nil {
+		return fmt.Sprintf("open: %v", err)
+	}
+	it := trie.NewIterator(t2.NodeIterator(nil))
+	n := 0
+	for it.Next() {
+		if want, ok := content[string(it.Key)]; !ok || !bytes.Equal(want, it.Value) {
+			return fmt.Sprintf("iteration: unexpected pair at key %x", it.Key)
+		}
+		n++
+	}
+	if it.Err != nil || n != len(content) {
+		return fmt.Sprintf("iteration: %d of %d pairs, err %v", n, len(content), it.Err)
+	}
+	if len(keys) > 0 {
+		k := []byte(keys[len(keys)/2])
+		t3, err := trie.New(root, db)
+		if err != nil {
+			return fmt.Sprintf("open: %v", err)
+		}
+		p := &recPutter{}
+		if err := t3.Prove(k, 0, p); err != nil {
+			return fmt.Sprintf("prove %x: %v", k, err)
+		}
+		pdb := mapReader{}
+		for _, e := range p.blobs {
+			pdb[string(crypto.Keccak256(e))] = e
+		}
+		if got := verify(root, k, pdb); got.kind != rVal || !bytes.Equal(got.val, content[string(k)]) {
+			return fmt.Sprintf("proof for %x verifies to %v", k, got)
+		}
+	}
+	return ""
 }
 
 func nPairs(ps []trie.VerifNode) string {
@@ -113,21 +173,20 @@ func runGc(h *History, res *vf.Result) (string, []hit) {
 			if refs[r.hash] <= 0 && !onDisk[r.hash] {
 				continue
 			}
-			t, err := trie.New(r.hash, triedb)
-			if err != nil {
-				fail("a live root lost nodes", fmt.Sprintf("step %d root %x: %v", step, r.hash, err))
+			if what := readCompletely(triedb, r.hash, r.content); what != "" {
+				fail("a live root lost nodes", fmt.Sprintf("step %d root %x: %s", step, r.hash, what))
+			}
+		}
+	}
+	// every root committed to disk must be readable through a FRESH Database
+	// over the same disk store (nothing may depend on nodes lingering in memory)
+	checkDisk := func(step int) {
+		for _, r := range roots {
+			if !onDisk[r.hash] {
 				continue
 			}
-			it := trie.NewIterator(t.NodeIterator(nil))
-			n := 0
-			for it.Next() {
-				if want, ok := r.content[string(it.Key)]; !ok || !bytes.Equal(want, it.Value) {
-					fail("a live root changed its content", fmt.Sprintf("step %d root %x key %x", step, r.hash, it.Key))
-				}
-				n++
-			}
-			if it.Err != nil || n != len(r.content) {
-				fail("a live root lost nodes", fmt.Sprintf("step %d root %x: %d of %d pairs, err %v", step, r.hash, n, len(r.content), it.Err))
+			if what := readCompletely(trie.NewDatabase(diskdb), r.hash, r.content); what != "" {
+				fail("a committed root cannot be read back from disk", fmt.Sprintf("step %d root %x: %s", step, r.hash, what))
 			}
 		}
 	}
@@ -218,6 +277,7 @@ func runGc(h *History, res *vf.Result) (string, []hit) {
 					onDisk[r] = true
 					count("gc:commit")
 					gops = append(gops, fmt.Sprintf("GCommit %s", bl(r.Bytes())))
+					checkDisk(i)
 				}
 			case "refchild":
 				// an explicit reference from a cached node to another root (account -> storage trie)
@@ -238,13 +298,105 @@ func runGc(h *History, res *vf.Result) (string, []hit) {
 			observe()
 			checkLive(i)
 		}
+		checkDisk(len(h.Gc))
 	}()
 	return fmt.Sprintf("mkCase false [] [] [%s]", strings.Join(gops, ";\n  ")), hits
 }
 
+// extPool: keys that share the nibble path [0] or a path ending in 1,0 in front
+// of a branch, plus one key elsewhere (deleting it collapses the root onto that
+// extension); with values >= 32 bytes the branch below is hashed separately.
+func extPool(rng *vf.Rng) (under [][]byte, other []byte) {
+	switch rng.Intn(4) {
+	case 0: // first nibble 0: extension [0] over the branch
+		for _, b := range []byte{0x01, 0x02, 0x0a, 0x0f} {
+			if rng.Chance(70) {
+				under = append(under, []byte{b})
+			}
+		}
+		other = []byte{byte(0x10 + rng.Intn(0xe0))}
+	case 1: // path 1,0
+		for _, b := range []byte{0xaa, 0xbb, 0x01, 0xf0} {
+			if rng.Chance(70) {
+				under = append(under, []byte{0x10, b})
+			}
+		}
+		other = []byte{byte(0x20 + rng.Intn(0xd0)), byte(rng.U64())}
+	case 2: // longer path ending 1,0
+		pre := byte(rng.Intn(256))
+		for _, b := range []byte{0x11, 0x22, 0x3c, 0xd4} {
+			if rng.Chance(70) {
+				under = append(under, []byte{pre, 0x10, b})
+			}
+		}
+		other = []byte{pre ^ 0x80, byte(rng.U64())}
+	default: // ascii keys as in "P1","PA","a": 0x50 = nibbles 5,0
+		under = [][]byte{[]byte("P1"), []byte("PA")}
+		if rng.Chance(50) {
+			under = append(under, []byte("Pz"))
+		}
+		other = []byte("a")
+	}
+	if len(under) == 0 {
+		under = append(under, []byte{0x01})
+	}
+	for len(under) < 2 {
+		last := append([]byte{}, under[0]...)
+		last[len(last)-1] ^= byte(1 + rng.Intn(15)) // same leading nibbles, another last nibble
+		under = append(under, last)
+	}
+	return
+}
+
+func bigValue(rng *vf.Rng) []byte { return rng.Bytes(32 + rng.Intn(24)) }
+
+// genGcExt: state N holds the keys under the extension plus one other key,
+// state N+1 deletes the other key (the root collapses to the extension), then
+// the two roots are dereferenced / committed / capped in random order.
+func genGcExt(rng *vf.Rng) History {
+	h := History{Kind: "gc"}
+	under, other := extPool(rng)
+	var ops []Step
+	for _, k := range under {
+		ops = append(ops, Step{Kind: "update", K: k, V: bigValue(rng)})
+	}
+	withOther := rng.Chance(75)
+	if withOther {
+		ops = append(ops, Step{Kind: "update", K: other, V: bigValue(rng)})
+	}
+	h.Gc = append(h.Gc, GcStep{Kind: "build", Base: -1, Ops: ops})
+	if withOther {
+		h.Gc = append(h.Gc, GcStep{Kind: "build", Base: 0, Ops: []Step{{Kind: "delete", K: other}}})
+	} else {
+		h.Gc = append(h.Gc, GcStep{Kind: "build", Base: 0, Ops: []Step{{Kind: "update", K: under[0], V: bigValue(rng)}}})
+	}
+	tail := []GcStep{{Kind: "deref", Root: 0}, {Kind: "commit", Root: 1}}
+	if rng.Chance(50) {
+		tail[0], tail[1] = tail[1], tail[0]
+	}
+	if rng.Chance(40) {
+		tail = append([]GcStep{{Kind: "cap", Limit: int(rng.Pick([]uint64{0, 30, 60}))}}, tail...)
+	}
+	if rng.Chance(40) {
+		tail = append(tail, GcStep{Kind: "build", Base: 1, Ops: []Step{{Kind: "update", K: under[len(under)-1], V: bigValue(rng)}}}, GcStep{Kind: "commit", Root: 2}, GcStep{Kind: "deref", Root: 1})
+	}
+	if rng.Chance(30) {
+		tail = append(tail, GcStep{Kind: "cap", Limit: 0})
+	}
+	h.Gc = append(h.Gc, tail...)
+	return h
+}
+
 func genGc(rng *vf.Rng) History {
+	if rng.Chance(30) {
+		return genGcExt(rng)
+	}
 	h := History{Kind: "gc"}
 	pool := genPool(rng)
+	if rng.Chance(35) {
+		under, other := extPool(rng)
+		pool = append(append(under, other), pool[:len(pool)/3]...)
+	}
 	for len(pool) < 6 {
 		pool = append(pool, rng.Bytes(1+rng.Intn(3)))
 	}
